@@ -181,7 +181,7 @@ void h_resize(void) {
 void h_del(void) {
   arbitrary_list();
   List_Del(l);
-  ASSERT(cv_retired == N && cv_live_count() == 0, "[C05] deleting a List finalises every element exactly once");
+  ASSERT(cv_retired == N && cv_live_count() == 0, "[C05][C06] deleting a List finalises every element exactly once");
   COVER(1, "del returns");
 }
 void h_concat(void) {
@@ -226,4 +226,16 @@ void h_hash_cmp(void) {
   }
   ASSERT(List_Cmp(l, src) == want, "[C09] cmp on List is the lexicographic order over the elements, shorter prefix first");
   COVER(want == 0 || N != M || N == 0, "equal sequences");
+}
+
+/* C01: the container's Mark instance hands every element to the collector's callback, once */
+static int cv_mk_calls, cv_mk_hits; static var cv_mk_watch, cv_mk_gc;
+static void cv_mark_cb(var g, void* p) { cv_mk_calls++; if (g != cv_mk_gc) cv_mk_calls += 100; if (p == cv_mk_watch) cv_mk_hits++; }
+void h_mark(void) {
+  arbitrary_list();
+  size_t gh_j = nondet_ulong(); __CPROVER_assume(N == 0 || gh_j < N);
+  cv_mk_gc = &X; cv_mk_watch = N ? old_node[gh_j] : NULL;
+  List_Mark(l, cv_mk_gc, cv_mark_cb);
+  ASSERT(cv_mk_calls == N && (N == 0 || cv_mk_hits == 1), "[C01] List_Mark passes every element to the callback exactly once");
+  COVER(1, "mark done");
 }
